@@ -95,27 +95,42 @@ class MemS3:
         self.objects.pop(Key, None)
         return {}
 
-    def list_objects_v2(self, Bucket: str, Prefix: str = "", MaxKeys: int = 1000, **kw: Any) -> Dict[str, Any]:
+    SERVER_PAGE = 2         # the service never returns more keys than this per response (S3: 1000): small, to exercise paging
+
+    def _list_page(self, Prefix: str, MaxKeys: int, token: Optional[str]) -> Dict[str, Any]:
+        keys = sorted(k for k in self.objects if k.startswith(Prefix))
+        if token is not None:
+            keys = [k for k in keys if k > token]
+        limit = max(0, min(MaxKeys, self.SERVER_PAGE))
+        page, rest = keys[:limit], keys[limit:]
+        if not page:
+            return {"KeyCount": 0, "IsTruncated": False}
+        out: Dict[str, Any] = {"Contents": [{"Key": k, "Size": len(self.objects[k]["body"]), "LastModified": self.objects[k]["lm"]} for k in page],
+                               "KeyCount": len(page), "IsTruncated": bool(rest)}
+        if rest:
+            out["NextContinuationToken"] = page[-1]
+        return out
+
+    def list_objects_v2(self, Bucket: str, Prefix: str = "", MaxKeys: int = 1000, ContinuationToken: Optional[str] = None,
+                        **kw: Any) -> Dict[str, Any]:
         self._call("list_objects_v2", Prefix, {})
-        keys = sorted(k for k in self.objects if k.startswith(Prefix))[:MaxKeys]
-        if not keys:
-            return {"KeyCount": 0}
-        return {"Contents": [{"Key": k, "Size": len(self.objects[k]["body"]), "LastModified": self.objects[k]["lm"]} for k in keys],
-                "KeyCount": len(keys)}
+        return self._list_page(Prefix, MaxKeys, ContinuationToken)
 
     def get_paginator(self, name: str) -> Any:
         outer = self
 
         class _P:
             def paginate(self, Bucket: str, Prefix: str = "", **kw: Any):
+                # one scheduling point per listing (as before); the pages are taken from ONE consistent view, each
+                # capped by the server-side page size, following the continuation token like botocore's paginator
                 outer._call("list_objects_v2", Prefix, {})
-                keys = sorted(k for k in outer.objects if k.startswith(Prefix))
-                for i in range(0, max(len(keys), 1), 2):
-                    page = keys[i:i + 2]
-                    if page:
-                        yield {"Contents": [{"Key": k, "Size": len(outer.objects[k]["body"]), "LastModified": outer.objects[k]["lm"]} for k in page]}
-                    else:
-                        yield {}
+                token = None
+                while True:
+                    resp = outer._list_page(Prefix, 1000, token)
+                    yield resp
+                    if not resp.get("IsTruncated"):
+                        return
+                    token = resp["NextContinuationToken"]
         return _P()
 
 
